@@ -1,4 +1,4 @@
-HOOK_COMMITS = ["d183566", "d0e1250"]
+HOOK_COMMITS = ["d183566", "d0e1250", "06b8afe"]
 NOTES = "Driver: ./check <ID> --tier quick|thorough. Exit 0 held / 1 VIOLATION / 2 inconclusive (harness trouble, never a violation). Known findings: known_findings.json."
 NOT_APPLICABLE = {}
 META = {
@@ -55,5 +55,11 @@ META = {
         "design_ref": "DESIGN.md section 4 C02",
         "note": "Downstream described by a fake api.TargetAPI; the pairing the code chooses is only required to be a bijection.",
         "technique": "property-based testing (rapid), validity-predicate oracle over emitted messages",
+    },
+    "C03": {
+        "text": "The harness owns the schedule of the window the statement names: build-tag-guarded yield points park stream goroutines between computing and enqueueing a pack and a generated schedule orders the releases, with arbitrary clock skew between the multiplexed streams. Found two defects (enqueue outside the channel lock; tick-only pack closed with its source end time), both fixed.",
+        "design_ref": "DESIGN.md section 4 C03",
+        "note": "Only the compute/enqueue window and feed order are controlled; other preemption points are sampled. With the fix in place the lock makes reordered releases impossible, so the schedule now exercises contention (a feed while another pack sits in the window).",
+        "technique": "property-based testing (rapid) with harness-controlled schedule (yield hooks), invariant oracle over the output sequence",
     },
 }
